@@ -331,6 +331,13 @@ CountersExact ==
 Pos == UNION {UNION {{<<c, j, q>> : q \in DOMAIN rets[c][j].oks} : j \in DOMAIN rets[c]} : c \in Callers}
 IdAt(x) == rets[x[1]][x[2]].oks[x[3]]
 AckedOnce == \A x, y \in Pos : x # y => IdAt(x) # IdAt(y)
+\* whatever the interleaving, no call's operation is lost: at quiescence every ADD / REPLACE that returned has been
+\* acknowledged or failed (by its own call or by the call whose walk retried it) or is held; every DELETE acknowledged or failed
+AllOkIds == {IdAt(x) : x \in Pos}
+AllFailIds == UNION {UNION {{rets[c][j].fails[q] : q \in DOMAIN rets[c][j].fails} : j \in DOMAIN rets[c]} : c \in Callers}
+Accounted == Quiescent => \A c \in Callers : \A j \in DOMAIN rets[c] :
+               Progs[c][j].typ = "ADDNI" \/ rets[c][j].id \in AllOkIds \cup AllFailIds \cup DOMAIN pend
+
 \* C02 completeness: nothing resolvable is left held
 NothingResolvableHeld == \A k \in DOMAIN pend : ~Resolvable(pend[k])
 
